@@ -91,6 +91,34 @@ static void converse(Ctx &c, const Sample &s) {
     c.desc << " converse-mode: " << n << " alterations, " << opened << " opened"; c.extra_evals = n; c.extra_distinct = n; c.nontrivial(); c.label("converse-mode");
 }
 
+// "Opens ONLY IF stored == computed", attacked directly: the stored checksum is replaced by the checksum of the header with
+// some bytes LEFT OUT (or zeroed) - what a reader that fails to feed those bytes to its hash would compute.  Every single
+// position, every adjacent pair, the first/last 1..4 bytes of the header body and of the lead's hashed part: none may open.
+// Runs whether or not the library opens the unaltered sample.
+static void forged_checksums(Ctx &c, const Sample &s, uint64_t &evals) {
+    if (c.gver < 4) return;
+    {
+        ref::ParseResult pq = ref::parse(s.file); size_t ds = ref::digest_size(pq.h.hash_type), dloc = pq.h.lead_size - ds, H = pq.h.total_size;
+        auto forged = [&](const std::vector<std::pair<size_t, size_t>> &skip, bool zero) {      // checksum over the header minus / with zeroed [a,b) ranges (the digest field itself is never hashed)
+            Bytes msg; for (size_t i = 0; i < H; i++) { if (i >= dloc && i < pq.h.lead_size) continue; bool sk = false; for (auto &r : skip) if (i >= r.first && i < r.second) sk = true; if (sk) { if (zero) msg.push_back(0); continue; } msg.push_back(i < 5 ? (uint8_t)"\0ZCK1"[i] : s.file[i]); }      // the identifier is always hashed as ZCK1
+            return ref::digest((int)pq.h.hash_type, msg.data(), msg.size()); };
+        std::vector<std::vector<std::pair<size_t, size_t>>> sets;
+        if (H > 3000) { for (size_t b = 0; b < H; b += 16384) { sets.push_back({{b, std::min(H, b + 16384)}}); sets.push_back({{std::min(H, pq.h.lead_size + b), std::min(H, pq.h.lead_size + b + 16384)}}); sets.push_back({{b, std::min(H, b + 32768)}}); sets.push_back({{std::min(H, pq.h.lead_size + b), std::min(H, pq.h.lead_size + b + 32768)}}); }
+                       size_t body = H - pq.h.lead_size; if (body % 32768) sets.push_back({{H - body % 32768, H}}); if (body % 16384) sets.push_back({{H - body % 16384, H}}); }
+        else for (size_t i = 0; i < H; i++) { if (i >= dloc && i < pq.h.lead_size) continue; sets.push_back({{i, i + 1}}); if (i + 2 <= H && !(i + 1 >= dloc && i + 1 < pq.h.lead_size)) sets.push_back({{i, i + 2}}); }
+        for (size_t k = 1; k <= 4; k++) { sets.push_back({{pq.h.lead_size, std::min(H, pq.h.lead_size + k)}}); sets.push_back({{H - std::min(H - pq.h.lead_size, k), H}}); sets.push_back({{0, std::min(dloc, k)}}); sets.push_back({{dloc - std::min(dloc, k), dloc}}); }
+        sets.push_back({{0, 5}}); sets.push_back({{5, dloc}}); sets.push_back({{0, dloc}}); sets.push_back({{pq.h.lead_size, H}});
+        Bytes orig_digest(s.file.begin() + dloc, s.file.begin() + pq.h.lead_size);
+        for (auto &st : sets) for (int zero = 0; zero < 2; zero++) {
+            if (st[0].first >= st[0].second) continue;
+            Bytes dg = forged(st, zero != 0); if (dg == orig_digest) continue;              // the left-out bytes were zeros already / nothing changed
+            Bytes m = s.file; memcpy(m.data() + dloc, dg.data(), ds); evals++;
+            if (lib_opens_bytes(m)) { c.extra_evals = evals; c.fail("forged-checksum-accepted", "the stored checksum was replaced by the checksum of the header with bytes [" + std::to_string(st[0].first) + "," + std::to_string(st[0].second) + ") " + (zero ? "zeroed" : "left out") + " and the file still opens: those bytes are not covered"); }
+        }
+        c.label("forged-checksums");
+    }
+}
+
 // Large headers (thousands of index entries): the header body, or the whole header, is steered onto the sizes at which the
 // library's internal block buffers (32 KiB read/hash blocks, the 16 KiB transport buffer) end exactly, and one byte to either
 // side; substitutions are sampled there (every lead byte, the first and last bytes of the body, the bytes around every 4 KiB
@@ -122,14 +150,14 @@ static void big_header(Ctx &c) {
     size_t hdr = pr.h.total_size, lead = pr.h.lead_size;
     c.desc << (from_ref ? "ref-written" : "lib-written") << " big header: " << (align_total ? "whole header " : "header body ") << L << " bytes (aimed at " << T << "), " << pr.h.entries.size() << " index entries, fullhash=" << full_hash << " chunkhash=" << chunk_hash;
     c.label(L == T ? "big-header-aligned" : "big-header-unaligned"); if (L == T && T % 32768 == 0) c.label(from_ref ? "big-header-on-32KiB-multiple(ref-written)" : align_total ? "big-header-on-32KiB-multiple(whole,lib-written)" : "big-header-on-32KiB-multiple(body,lib-written)");
-    int fd = lib::mkfd(file);
-    if (!lib_opens(fd)) { close(fd); c.label("sample-not-opened"); c.desc << " (library refuses the unmutated sample)"; return; }
+    int fd = lib::mkfd(file); uint64_t evals = 0;
+    { Sample sm; sm.file = file; sm.hdr_len = pr.h.total_size; forged_checksums(c, sm, evals); }
+    if (!lib_opens(fd)) { close(fd); c.label("sample-not-opened"); c.desc << " (library refuses the unmutated sample)"; c.extra_evals = evals; c.extra_distinct = evals; if (evals) c.nontrivial(); return; }
     std::set<size_t> P; for (size_t i = 0; i < lead; i++) P.insert(i);
     for (size_t i = 0; i < 48 && lead + i < hdr; i++) P.insert(lead + i);
     for (size_t i = 1; i <= 400 && i <= hdr; i++) P.insert(hdr - i);
     for (size_t m = 4096; m < hdr + 4096; m += 4096) for (long dlt = -3; dlt <= 3; dlt++) { for (size_t base : {(size_t)0, lead}) { long q = (long)base + (long)m + dlt; if (q >= 0 && (size_t)q < hdr) P.insert((size_t)q); } }
     pbt::Rng rng(seed + 17); for (int i = 0; i < 300; i++) P.insert(rng.below(hdr));
-    uint64_t evals = 0;
     for (size_t pos : P) { uint8_t orig = file[pos];
         for (uint8_t v : {(uint8_t)(orig ^ 1), (uint8_t)(orig ^ 0x80), (uint8_t)(orig + 37)}) {
             if (pwrite(fd, &v, 1, pos) != 1) abort(); evals++;
@@ -146,7 +174,7 @@ static void prop(Ctx &c) {
     c.desc << s.desc;
     if (c.chance(1, 3)) { converse(c, s); return; }
     int fd = lib::mkfd(s.file);
-    if (!lib_opens(fd)) { close(fd); c.label("sample-not-opened"); c.desc << " (library refuses the unmutated sample)"; return; }
+    if (!lib_opens(fd)) { close(fd); c.label("sample-not-opened"); c.desc << " (library refuses the unmutated sample)"; uint64_t ev = 0; forged_checksums(c, s, ev); c.extra_evals = ev; c.extra_distinct = ev; if (ev) c.nontrivial(); return; }
     c.label(s.desc.find("detached") != std::string::npos ? "detached" : "full");
     // pure magic switch must still open
     {
@@ -197,6 +225,19 @@ static void prop(Ctx &c) {
         }
     }
     close(fd);
+    forged_checksums(c, s, evals);
+    if (c.gver >= 4) {
+        ref::ParseResult pq = ref::parse(s.file); size_t ds = ref::digest_size(pq.h.hash_type), dloc = pq.h.lead_size - ds, H = pq.h.total_size;
+        // options set AFTER the lead has been read (advanced open): they must not replace the comparison with the stored checksum
+        for (size_t k = 0; k < 6; k++) {
+            size_t pos = k < 4 ? dloc + (k * 5 + s.file[5]) % ds : pq.h.lead_size + (k * 131 + s.file[dloc]) % std::max<size_t>(1, H - pq.h.lead_size); if (pos >= H) continue;
+            Bytes m = s.file; m[pos] ^= (uint8_t)(1u << (k % 8)); int fd3 = lib::mkfd(m); zckCtx *z = zck_create(); evals++;
+            bool ok = zck_init_adv_read(z, fd3) && zck_read_lead(z);
+            if (ok) { bool t1 = zck_set_ioption(z, ZCK_VAL_HEADER_HASH_TYPE, pins.type), t2 = zck_set_soption(z, ZCK_VAL_HEADER_DIGEST, pins.digest_hex.data(), pins.digest_hex.size()); (void)t1; (void)t2; if (zck_is_error(z)) (void)!zck_clear_error(z);
+                      if (zck_read_header(z)) { zck_free(&z); close(fd3); c.extra_evals = evals; c.fail("late-pin-accepts-altered-header", "header byte " + std::to_string(pos) + " was changed; with the true checksum pinned AFTER zck_read_lead the header is accepted"); } }
+            zck_free(&z); close(fd3);
+        }
+    }
     // the two integers of the lead written in a different (longer, value-preserving) encoding, everything else - including the
     // stored checksum - left alone: the checksum covers the bytes, not the values, so none of these may open
     {
